@@ -17,7 +17,7 @@ def isWsC (c : Char) : Bool := c == ' ' || c == '\n' || c == '\t' || c == '\r'
 def idChar (c : Char) : Bool := c.isAlphanum || c == '_'
 
 /-- tokens of the literal keywords -/
-def litKwToks : List String := ["TOK_LOGICAL_LITERAL", "TOK_PI", "TOK_SELF", "TOK_QUERY"]
+def litKwToks : List String := ["TOK_LOGICAL_LITERAL", "TOK_PI", "TOK_E", "TOK_SELF", "TOK_QUERY"]
 
 /-- a word as the scanner classifies it; `none`: a reserved word that cannot occur in an expression -/
 def classify (w : List Char) : Option Tok :=
